@@ -40,5 +40,6 @@ MdConsistent(t) ==
                    /\ m.lt = c.rows[n][1] /\ m.le = c.rows[n][2]
   /\ md.start = t.out[1].s /\ md.end = t.out[Len(t.out)].e
   /\ md.ended /\ ~md.exc
-Accepted == RoundTrip(Traces[tid]) /\ MdConsistent(Traces[tid])
+\* srcok: the source data is intact afterwards (C16: unless replacement was requested); always TRUE for C03 traces
+Accepted == RoundTrip(Traces[tid]) /\ MdConsistent(Traces[tid]) /\ Traces[tid].srcok
 =============================================================================
